@@ -455,6 +455,13 @@ func c18Alphabet(thorough bool) []initCall {
 		initCall{Name: "Normal", A: 0, B: 1}, initCall{Name: "Full", A: 0},
 		initCall{Name: "Normal", Nil: true}, initCall{Name: "Normal", A: 1, B: 2},
 	)
+	// parameters that no narrower type than float64 holds (checks_scalararg.go; round 14)
+	base = append(base,
+		initCall{Name: "Full", A: 0.1}, initCall{Name: "Full", A: 1e-50}, initCall{Name: "Full", A: -2.5e40}, initCall{Name: "Full", A: 123456789.125},
+		initCall{Name: "Uniform", A: 0.1, B: 0.7}, initCall{Name: "Uniform", A: 1e-50, B: 3e-50}, initCall{Name: "Uniform", A: -2.5e40, B: 2.5e40},
+		initCall{Name: "Normal", A: 0.3, B: 0.1}, initCall{Name: "Normal", A: 1e40, B: 1e38}, initCall{Name: "Normal", A: 0, B: 1e-50},
+		initCall{Name: "RandU", A: 0.1, B: 0.7}, initCall{Name: "RandU", A: -2.5e40, B: 1e-50}, initCall{Name: "RandN", A: 0.3, B: 0.1}, initCall{Name: "RandN", A: 1e40, B: 1e38},
+	)
 	fans := []int{1, 2, 3}
 	if thorough {
 		fans = []int{1, 2, 3, 5, 6, 10}
